@@ -1,13 +1,16 @@
 # C08 — the end-to-end pipeline yields valid, ordered knees of the original curve
-import itertools, random, os, csv
+import itertools, random, os, csv, math
 from core import *
 import gen
+import c12          # the oracle tables of the cluster stage are built by the C12 harness (labels, hull, scores, distances)
 
 SIMPS = ['rdp', 'rdp_fixed', 'grdp', 'mp_grdp', 'min_point_rdp']
 DETS = ['curvature', 'dfdt', 'menger', 'lmethod', 'kneedle']
 LINKS = ['single_linkage', 'complete_linkage', 'centroid_linkage', 'average_linkage']
 RANKS = ['left', 'linear', 'right', 'hull']
 CONFIGS = list(itertools.product(SIMPS, DETS, LINKS, RANKS))   # 400
+CLINK = {'single_linkage': 'Single', 'complete_linkage': 'Complete', 'centroid_linkage': 'Centroid', 'average_linkage': 'Average'}
+_C12 = c12.C12()
 
 
 def _nats(a):
@@ -58,14 +61,28 @@ class C08:
     id = 'C08'
     judge_module = 'Run.JudgeC08'
     rule = ('performance curves (gen.curve families, miss-ratio-like curves; thorough: windows / sub-samplings of the bundled traces) x the 400 '
-            'configurations 5 simplifiers x 5 detectors x 4 linkages x 4 ranking modes enumerated round-robin x thresholds (simplifier t / length, '
-            'corner t incl. 0 and 1, cluster t); the real pipeline of demos/*.py is run stage by stage and every intermediate value is judged; '
+            'configurations 5 simplifiers x 5 detectors x 4 linkages x 4 ranking modes enumerated round-robin x thresholds (simplifier t / length; '
+            'corner t from a grid incl. 0 and 1 OR an IoU the corner filter really computes on that run (exact tie IoU == t) and its nextafter '
+            'neighbours; cluster t from a grid OR the normalised knee gaps the linkage really compares, their neighbours); the real pipeline of '
+            'demos/*.py is run stage by stage and every intermediate value is judged; the worst-knee, corner and cluster filters and the mapping are '
+            'each recomputed by the Coq model on the implementation\'s own input to that stage and compared exactly; '
             'non-trivial = at least 2 knees survive to the end, or a filter stage dropped a knee; distinct by (curve, configuration, thresholds)')
-    assumptions = ['heights are not NaN (checked per case: a NaN height puts the case outside the domain)',
-                   'stage specifications assumed by the composition theorem are the conclusions of C01 (well-formed reduction), C02 (strictly increasing knees '
-                   'inside the reduced curve), C13/C12 (filters select from their input); each is re-checked on the implementation\'s values in every case']
-    trusted = ['modelled in C08: filter_worst_knees and rdp.mapping (computed in the model and compared exactly); the simplifier, multi-knee detector, corner filter '
-               'and cluster filter enter the C08 model as stage functions (their own checks C01/C02/C13/C12 model them)']
+    assumptions = ['heights and abscissae are not NaN (checked per case: a NaN coordinate puts the case outside the domain)',
+                   'the composition theorem C08_pipeline_ok assumes stage specifications; C08_corner_stage / C08_cluster_stage / C08_c11_labels_ok / '
+                   'C08_multiknee_stage / C08_simplifier_stage discharge them for the concrete models of C13 / C12 / C11 / C02 / C01 '
+                   '(C08_pipeline_filters_closed, C08_pipeline_closed_*); each specification is also re-checked on the implementation\'s values in every case',
+                   'hypotheses left in the closed theorems = oracle shapes only: distance arrays have one entry per point (C01), the single-knee oracle answers '
+                   'inside its slice (C02 knee_in_range), np.argsort returns a permutation and kr.smooth_ranking one score per cluster member (C12); '
+                   'Tier O on the heights (discharged on binary64 for non-NaN heights)',
+                   'cluster-stage cases in which a ranked cluster has a tie for the top of NumPy\'s sort order are judged on the predicate only for that '
+                   'stage (agree code 5): np.argsort is unstable on ties']
+    trusted = ['modelled and compared exactly in C08: filter_worst_knees (Model/Pipeline.v = C13\'s), filter_corner_knees (Model/Filters.v, C13: IoU computed in the model), '
+               'filter_clusters (Model/ClusterFilter.v, C12) over the linkage labels computed by the C11 model (Model/Clustering.v; also compared with the real '
+               'clustering function\'s labels) and, in hull mode, the lower hull computed by the C18 model (Model/Hull.v; also compared with ch.graham_scan_lower), rdp.mapping (C07)',
+               'oracles of the cluster stage (the library\'s own values, tables built by harness/c12.py): kr.smooth_ranking per multi-member cluster, '
+               'np.sum(lf.shortest_distance_points(...)) per index range; np.argsort = any sorting permutation in the theorems, stable sort (NaN last) in the run',
+               'the simplifier and the multi-knee detector are judged on the predicate only in C08 (their models are run against the code by C01/C04/C05/C06 and C02); '
+               'the closed theorems compose those models']
     timeout = 60.0
     shard = 200
 
@@ -110,8 +127,13 @@ class C08:
                 'st': rng.choice([0.5, 0.1, 0.05, 0.01, 0.001]), 'sk': rng.randint(0, n + 1),
                 'dist': rng.choice(['shortest', 'perpendicular']), 'order': rng.choice(['triangle', 'area', 'segment']),
                 'cost': rng.choice(['smape', 'rpd', 'rmspe', 'rmsle', 'r2']),
-                'ct': rng.choice([0.33, 0.33, 0.0, 1.0, 0.1, 0.5, 0.9]), 'lt': rng.choice([0.01, 0.05, 0.05, 0.2, 0.5]),
-                't1': rng.choice([0.001, 0.01, 0.0, 0.1])}
+                'ct': rng.choice([0.33, 0.33, 0.0, 1.0, 0.1, 0.5, 0.9]), 'lt': rng.choice([0.01, 0.05, 0.05, 0.2, 0.3, 0.5, 0.5]),
+                't1': rng.choice([0.001, 0.01, 0.0, 0.1]),
+                # boundary thresholds, resolved at run time on the values the stage really compares (None = use ct / lt):
+                # corner: (j, d) = the IoU of the j-th interior knee of k1, moved d doubles (exact tie `IoU == t` for d = 0);
+                # cluster: j = the j-th entry of c12.thresholds (normalised knee gaps of k2: exact ties of the linkage test, neighbours, grid)
+                'ctm': rng.choice([None] * 7 + [(0, 0), (1, 0), (2, 0), (0, 1), (1, 1), (1, -1)]),
+                'ltm': rng.choice([None, None, rng.randrange(0, 64)])}
 
     def warmup(self):
         import numpy as np
@@ -184,18 +206,55 @@ class C08:
             return c
         k1 = r[1]
         st['k1'] = _nats(k1)
-        r = call(pp.filter_corner_knees, pr, k1, c['ct'])
+        ct = float(c['ct'])
+        if c.get('ctm') is not None:
+            def _ious():
+                out = []
+                for idx in (st['k1'] or []):
+                    if idx - 1 >= 0 and idx + 1 < len(pr):
+                        p0, p1, p2 = pr[idx - 1:idx + 2]
+                        amin, amax = kr.rect(np.array([p0[0], p2[1]]), p1)
+                        bmin, bmax = kr.rect(p0, p2)
+                        out.append(float(kr.rect_overlap(amin, amax, bmin, bmax)))
+                return out
+            r = call(_ious)
+            ious = [v for v in r[1] if v == v] if r[0] == 'ok' else []
+            if ious:
+                j, d = c['ctm']
+                ct = ious[j % len(ious)]
+                if d:
+                    ct = math.nextafter(ct, math.inf * d)
+        st['ct'] = ct
+        r = call(pp.filter_corner_knees, pr, k1, ct)
         if r[0] != 'ok':
             st['exc'] = 'filter_corner_knees: ' + str(r[1])
             return c
         k2 = r[1]
         st['k2'] = _nats(k2)
-        r = call(pp.filter_clusters, pr, k2, getattr(clustering, c['link']), c['lt'], kr.ClusterRanking[c['rank']])
+        lt = float(c['lt'])
+        if c.get('ltm') is not None and st['k2'] is not None and len(st['k2']) >= 2:
+            r = call(c12.thresholds, None, pr.tolist(), list(st['k2']))
+            ts = [v for v in r[1] if v == v and v > 0] if r[0] == 'ok' else []
+            if ts:
+                lt = float(ts[c['ltm'] % len(ts)])
+        st['lt'] = lt
+        r = call(pp.filter_clusters, pr, k2, getattr(clustering, c['link']), lt, kr.ClusterRanking[c['rank']])
         if r[0] != 'ok':
             st['exc'] = 'filter_clusters: ' + str(r[1])
             return c
         k3 = r[1]
         st['k3'] = _nats(k3)
+        # oracle tables of the cluster stage, on the implementation's own k2 (built by the C12 harness: labels recorded
+        # through a pass-through wrapper around the real clustering function, graham_scan_lower, kr.smooth_ranking per
+        # multi-member cluster, sums of shortest distances).  Not needed when filter_clusters returns its input unchanged.
+        if st['k2'] is not None and len(st['k2']) >= 2:
+            try:
+                cc = _C12.run_impl({'points': pr.tolist(), 'knees': list(st['k2']), 'link': c['link'].replace('_linkage', ''),
+                                    't': lt, 'mode': c['rank']})
+                st['cl'] = {'labels': cc.get('labels') or [], 'hull': cc.get('hull') or [], 'scores': cc.get('scores') or [],
+                            'sd': cc.get('sd') or [], 'multi': cc.get('multi', 0), 'again': cc.get('out')}
+            except Exception as e:      # tables incomplete -> the judge answers agree-code 4
+                st['cl'] = {'labels': [], 'hull': [], 'scores': [], 'sd': [], 'multi': 0, 'again': None, 'err': type(e).__name__}
         r = call(rdp.mapping, k3, reduced, removed)
         if r[0] != 'ok':
             st['exc'] = 'mapping: ' + str(r[1])
@@ -206,12 +265,18 @@ class C08:
     def emit(self, c):
         st = c.get('stages', {})
         pts = c['points']
+        xs = [p[0] for p in pts]
         ys = [p[1] for p in pts]
         rows = st.get('rem') or []
         o = lambda k: copt(st.get(k), cnats)
-        return 'CPipe %s %s %s %s %s %s %s %s %s' % (
-            cnat(len(pts)), cfls(ys), o('red'), clist(['(%s, %s)' % (cnat(a), cnat(b)) for a, b in rows]),
-            o('knees'), o('k1'), o('k2'), o('k3'), o('out'))
+        cl = st.get('cl') or {'labels': [], 'hull': [], 'scores': [], 'sd': []}
+        scores = clist(['(%s, %s)' % (cnats(k), cfls(v)) for k, v in cl['scores']])
+        sd = clist(['(%s, %s, %s)' % (cnat(l), cnat(r), fl(v)) for l, r, v in cl['sd']])
+        ci = '(CInfo %s %s %s %s %s %s %s)' % (c12.CMODE[c['rank']], CLINK[c['link']], fl(float(st.get('lt', c['lt']))),
+                                               cnats(cl['labels']), cnats(cl['hull']), scores, sd)
+        return 'CPipe %s %s %s %s %s %s %s %s %s %s %s %s' % (
+            cnat(len(pts)), cfls(xs), cfls(ys), o('red'), clist(['(%s, %s)' % (cnat(a), cnat(b)) for a, b in rows]),
+            o('knees'), o('k1'), o('k2'), o('k3'), o('out'), fl(float(st.get('ct', c['ct']))), ci)
 
     def nontrivial_key(self, c):
         st = c.get('stages', {})
@@ -220,7 +285,7 @@ class C08:
             return None
         dropped = any(len(st.get(a) or []) != len(st.get(b) or []) for a, b in [('knees', 'k1'), ('k1', 'k2'), ('k2', 'k3')])
         if len(out) >= 2 or dropped:
-            return (case_hash(c['points']), c['simp'], c['det'], c['link'], c['rank'], c['st'], c['sk'], c['ct'], c['lt'])
+            return (case_hash(c['points']), c['simp'], c['det'], c['link'], c['rank'], c['st'], c['sk'], c['ct'], c['lt'], str(c.get('ctm')), c.get('ltm'))
         return None
 
     def classify(self, c):
@@ -228,6 +293,12 @@ class C08:
         return {'simplifier': c['simp'], 'detector': c['det'], 'linkage': c['link'], 'ranking': c['rank'],
                 'family': c['family'], 'n': min(len(c['points']), 400) // 10 * 10,
                 'final_knees': min(len(st.get('out') or []), 9),
+                'cluster_stage_in_model': ('not reached' if st.get('k2') is None else 'input has < 2 knees (returned unchanged)' if len(st['k2']) < 2
+                                           else 'tables missing' if (st.get('cl') or {}).get('err') else
+                                           '%d multi-member clusters' % min((st.get('cl') or {}).get('multi', 0), 4)),
+                'corner_threshold': ('grid' if c.get('ctm') is None else 'observed IoU (exact tie)' if c['ctm'][1] == 0 else 'nextafter of an observed IoU'),
+                'cluster_threshold': 'grid' if c.get('ltm') is None else 'observed knee gap / neighbour / grid (c12.thresholds)',
+                'corner_stage_dropped': 'not reached' if st.get('k2') is None or st.get('k1') is None else min(len(st['k1']) - len(st['k2']), 4),
                 'stage_failed': (st.get('exc') or ('timeout' if st.get('timeout') else 'none')).split(':')[0]}
 
     def shrink(self, c):
@@ -253,7 +324,8 @@ class C08:
         return ('points=np.array(%s); reduced, removed = rdp.%s(points, ...[t=%s, k=%s, %s, %s, %s]); pr = points[reduced]; '
                 'knees = %s.multi_knee(pr, %s); k1 = pp.filter_worst_knees(pr, knees); k2 = pp.filter_corner_knees(pr, k1, %s); '
                 'k3 = pp.filter_clusters(pr, k2, clustering.%s, %s, kr.ClusterRanking.%s); out = rdp.mapping(k3, reduced, removed)'
-                % (c['points'], c['simp'], c['st'], c['sk'], c['dist'], c['order'], c['cost'], c['det'], c['t1'], c['ct'], c['link'], c['lt'], c['rank']))
+                % (c['points'], c['simp'], c['st'], c['sk'], c['dist'], c['order'], c['cost'], c['det'], c['t1'],
+                   repr(c.get('stages', {}).get('ct', c['ct'])), c['link'], repr(c.get('stages', {}).get('lt', c['lt'])), c['rank']))
 
 
 if __name__ == '__main__':
